@@ -560,37 +560,42 @@ static size_t ref_expand(const char *in, size_t len, char *out, int depth)
 }
 
 /* ---- harness plumbing -------------------------------------------------------------------------------- */
-static int in_alphabet(char c)
+/* one character of the unit's alphabet, as a choice between CONSTANTS (cbmc then folds the comparisons of
+ * the switch in spifconf_shell_expand for the characters that are not in the alphabet, and does not unroll
+ * the branches -- call, back-quote -- that no input of the unit can take) */
+static char pick_char(void)
 {
-    if (c == 'a') return 1;
+    char c = 'a';
 #ifdef A_SPACE
-    if (c == ' ') return 1;
+    if (nondet_bool()) c = ' ';
 #endif
 #ifdef A_TILDE
-    if (c == '~') return 1;
+    if (nondet_bool()) c = '~';
 #endif
 #ifdef A_BS
-    if (c == '\\') return 1;
+    if (nondet_bool()) c = '\\';
 #endif
 #ifdef A_DOLLAR
-    if (c == '$') return 1;
+    if (nondet_bool()) c = '$';
 #endif
 #ifdef A_BRACE
-    if (c == '{' || c == '}') return 1;
+    if (nondet_bool()) c = '{';
+    if (nondet_bool()) c = '}';
 #endif
 #ifdef A_PAREN
-    if (c == '(' || c == ')') return 1;
+    if (nondet_bool()) c = '(';
+    if (nondet_bool()) c = ')';
 #endif
 #ifdef A_PCT
-    if (c == '%') return 1;
+    if (nondet_bool()) c = '%';
 #endif
 #ifdef A_SQ
-    if (c == '\'') return 1;
+    if (nondet_bool()) c = '\'';
 #endif
 #ifdef A_DQ
-    if (c == '"') return 1;
+    if (nondet_bool()) c = '"';
 #endif
-    return 0;
+    return c;
 }
 static char w_in[NMAX + 1];
 static size_t w_len;
@@ -601,21 +606,14 @@ static void pick_input(void)                          /* w_in: arbitrary text of
     /* shape-constrained behaviour: the structural characters are fixed, each ? is any character of the alphabet */
     static const char shape[] = SHAPE;
     w_len = sizeof(shape) - 1;
-    for (i = 0; i < NMAX; i++) {
-        if (shape[i] == '?') { char c = nondet_char(); __CPROVER_assume(in_alphabet(c)); w_in[i] = c; }
-        else w_in[i] = shape[i];
-    }
+    for (i = 0; i < NMAX; i++) w_in[i] = (shape[i] == '?') ? pick_char() : shape[i];
     w_in[NMAX] = 0;
-    return;
+#else
+    w_len = NMAX;
+    for (i = 0; i < NMAX; i++) w_in[i] = pick_char();
+    for (i = NMAX; i > 0; i--) if (nondet_bool()) { w_in[i - 1] = 0; w_len = i - 1; }   /* cut anywhere */
+    w_in[NMAX] = 0;
 #endif
-    w_len = nondet_size_t();
-    __CPROVER_assume(w_len <= NMAX);
-    for (i = 0; i < NMAX; i++) {
-        char c = nondet_char();
-        __CPROVER_assume(i < w_len ? in_alphabet(c) : c == 0);
-        w_in[i] = c;
-    }
-    w_in[NMAX] = 0;
 }
 static char *mk_str(const char *lit)
 {
